@@ -71,6 +71,8 @@ def faults(g):
     add("block-args", '<%%block name="bb9" args="a=%s">x</%%block>' % BAD)
     add("page-args", '<%%page args="a=%s"/>' % BAD)
     add("filter-list", "${x | h, %s}" % "a b")
+    add("filter-list-after-newline", "${x |\n" + "\n" * k + " h, a b}", dline=1 + k)
+    add("filter-list-multiline-expr", "${[x,\n y][0]\n" + "\n" * k + " | a b}", dline=2 + k)
     add("attr-expr", '<%%include file="${%s}"/>' % BAD)
     add("call-expr", '<%%call expr="f(%s)">x</%%call>' % BAD)
     add("nscall-attr", '<%%self:f a="${%s}">x</%%self:f>' % BAD)
